@@ -801,5 +801,7 @@ def run(ctx):
                           "Int128/UInt128 have no SQL spelling exercised here; the 128-bit theorems are proofs only (Decimal128 exercises i128)"]
     out["wall"] = time.time() - t0
     # SUM/AVG state machines (update/merge/finalize) over any split of the input: model/AggFn.v, props/C07fn.v
-    from . import c07fn
-    return common.merge_results(out, c07fn.run(ctx), "aggregate_function_states")
+    from . import c07fn, c05num
+    out = common.merge_results(out, c07fn.run(ctx), "aggregate_function_states")
+    # abs, rounding functions, gcd/lcm/factorial, shifts: model/NumFn.v, props/C05num.v
+    return common.merge_results(out, c05num.run(ctx), "numeric_bitwise_functions")
